@@ -42,6 +42,11 @@ func genAloneRCase(r *sim.Rng, tier string) *RCase {
 			c.Stream = StreamRecipe{Kind: "corpus", File: sim.Pick(r, files)}
 		}
 	}
+	if r.Chance(1, 3000) {
+		// more than 8 MiB of content with matches reaching beyond the reader's default window
+		c.Stream = StreamRecipe{Kind: "refenc-far-alone", Seed: r.Uint64()}
+		c.Reads = []int{sim.Pick(r, []int{4096, 32768, 1 << 20, 100000})}
+	}
 	return c
 }
 
@@ -129,6 +134,9 @@ func probeTrace(t *reflzma.Trace, x *sim.Ctx) {
 	}
 	if t.MaxLen == 273 {
 		x.Probe("len-273")
+	}
+	if t.MaxDist > 8<<20 {
+		x.Probe("distance-beyond-8MiB")
 	}
 	if t.EOS {
 		x.Probe("eos-marker")
